@@ -188,6 +188,7 @@ def run_lost_fragment(ctx, model):
                     return bytes(out)
             return None
         sess.sock.answer = answer
+        f1 = len(sess.sock.frames)
         ctx.case("lost-fragment", ("lost", i, size, k, multi))
         ctx.count("lost-fragment/fragments", len(frag_idx))
         case = {"tag_bytes": size, "fragments": len(frag_idx), "lost_fragment": k, "with_other_request": multi, "connection": 4000 if large else 500}
@@ -203,6 +204,14 @@ def run_lost_fragment(ctx, model):
             sess.close()
             continue
         sess.sock.answer = None
+        # whatever the driver does about the refused fragment (give up, go on, send it again): two consecutive connected
+        # messages never carry the same sequence count (C17)
+        seqs = [struct.unpack_from("<H", f, 44)[0] for f in sess.sock.frames[f1:] if f[:2] == b"\x70\x00" and len(f) >= 46]
+        for j in range(1, len(seqs)):
+            if seqs[j] == seqs[j - 1]:
+                ctx.violation("sequence-count-repeated", dict(case, frame_index=j),
+                              "count %d on two consecutive connected messages after a refused fragment" % seqs[j])
+                break
         t = res[0] if isinstance(res, list) else res
         mem, _ = sess.mem()
         sym = next(s_ for s_ in p["controller"] if s_.name == "big")
@@ -265,7 +274,7 @@ def run(ctx, model):
                 "micro800": p.get("micro800", False), "writes": [(t, repr(v)[:80]) for t, v, _ in reqs]}
         n_frames0 = len(sess.sock.frames)
         try:
-            res = core.with_budget(120, sess.d.write, *[(t, v) for t, v, _ in reqs])
+            res = core.with_budget(300, sess.d.write, *[(t, v) for t, v, _ in reqs])
         except BaseException as e:  # noqa
             if isinstance(e, (KeyboardInterrupt, SystemExit)):
                 raise
